@@ -9,6 +9,7 @@ import (
 	"fmt"
 	"os"
 	"sort"
+	"sync/atomic"
 	"time"
 )
 
@@ -54,7 +55,42 @@ type Ctx struct {
 	Res      *Result
 	caseIdx  int64
 	curFile  *os.File
+
+	// watchdog (C06): a case running longer than the limit is recorded as a
+	// violation and the worker stops
+	OnAbort    func()
+	watchStart int64 // unix nanos, 0 = idle
+	watchCase  any
+	watchOn    bool
 }
+
+// Watch arms the per-case watchdog; Unwatch disarms it. The deadline is
+// generous (HangLimit); it is a hang detector, not a performance oracle.
+var HangLimit = 30 * time.Second
+
+func (c *Ctx) Watch(cas any) {
+	c.watchCase = cas
+	atomic.StoreInt64(&c.watchStart, time.Now().UnixNano())
+	if !c.watchOn {
+		c.watchOn = true
+		go func() {
+			for {
+				time.Sleep(500 * time.Millisecond)
+				st := atomic.LoadInt64(&c.watchStart)
+				if st != 0 && time.Since(time.Unix(0, st)) > HangLimit {
+					c.Violate("request does not return|"+fmt.Sprint(HangLimit), "every request returns", fmt.Sprintf("no return after %v", HangLimit), c.watchCase)
+					c.Cap("worker stopped after a hang")
+					if c.OnAbort != nil {
+						c.OnAbort()
+					}
+					os.Exit(0)
+				}
+			}
+		}()
+	}
+}
+
+func (c *Ctx) Unwatch() { atomic.StoreInt64(&c.watchStart, 0) }
 
 func NewCtx(prop, tier string, shard, nshards int, seed int64, scratch string, budget time.Duration) *Ctx {
 	return &Ctx{
